@@ -26,7 +26,7 @@ RULE = ("agent arm: 0-6 initial agents, 1-3 mutator systems at priorities above/
         "in ~25% of runs, real temporary files in ~10%; non-trivial = population changed inside >=1 timestep before the "
         "collector's turn (agent arm) / >=2 complete flush cycles with write_count>=1 and >=1 empty collection (file "
         "arm); distinct = abstract schedule shape"
-        "; also: composite function that keeps and updates ONE dict, empty-string records, environment object replaced between timesteps, systems removed next to the collector, stress runs with large write_count; rare switch for known finding F7, per-agent / composite functions given as falsy callable objects")
+        "; also: composite function that keeps and updates ONE dict, empty-string records, environment object replaced between timesteps, systems removed next to the collector, stress runs with large write_count; rare switch for known finding F7, per-agent / composite functions given as falsy callable objects, a model class with its own `timestep` attribute")
 COMPONENTS = {"real": ["ECAgent.Collectors.AgentCollector.collect", "FileCollector.execute/write_records", "Collector",
                        "ECAgent.Core scheduler and Environment", "builtins.open + OS (real-file runs only)"],
               "stub": ["open() as seen by ECAgent.Collectors -> simkit.simdisk.SimDisk (durable at flush/close/buffer "
@@ -34,7 +34,7 @@ COMPONENTS = {"real": ["ECAgent.Collectors.AgentCollector.collect", "FileCollect
 PROBES = ["empty_record_suppressed", "collector_off_window", "removed_by_higher_priority_same_step",
           "added_by_higher_priority_same_step", "changed_after_collector_turn", "composite_used", "value_zero_recorded",
           "crash_at_flush_boundary", "crash_mid_flush", "real_file", "composite_shared_dict", "empty_string_record", "environment_replaced", "system_removed_next_to_collector", "empty_collection", "empty_flush",
-          "preexisting_content", "two_file_collectors", "buffer_overflow_mid_flush", "falsy_callable_objects_as_functions"]
+          "preexisting_content", "two_file_collectors", "buffer_overflow_mid_flush", "falsy_callable_objects_as_functions", "model_with_own_timestep_attribute"]
 TECHNIQUE = "deterministic simulation: population changing on a seeded schedule inside timesteps vs a replaying reference; simulated disk with crash points and the conservation invariant file + held = collected"
 LEVEL_TEXT = ("Seeded search over population-change schedules, collector windows and disk behaviour; after every timestep the "
               "records equal the reference's and earlier records are untouched; for the file collector, after every disk event "
@@ -130,6 +130,7 @@ def generate(rng, tier):
     sc = gen_agent_arm(rng, tier) if rng.random() < 0.5 else gen_file_arm(rng, tier)
     if sc["arm"] == "agent":
         sc["falsy_callables"] = rng.random() < 0.15     # the per-agent / composite functions are falsy callable objects
+    sc["shadow_timestep"] = rng.choice([None, None, None, None, 0.25, 2.0, 7])     # the model's own `timestep` attribute
     return sc
 
 
@@ -238,8 +239,20 @@ def apply_ref(pop, act):
     return None
 
 
+class UserModel(Model):
+    """A model class of the user's own; it may keep an attribute called `timestep` (a step length, say)."""
+
+
+def make_model(sc, ctx):
+    m = UserModel(seed=20260927)
+    if sc.get("shadow_timestep") is not None:
+        m.timestep = sc["shadow_timestep"]
+        ctx.probe("model_with_own_timestep_attribute")
+    return m
+
+
 def run_agent_arm(sc, ctx):
-    m = Model(seed=20260927)
+    m = make_model(sc, ctx)
     w = AgentWorld(m, ctx)
     pop = {}
     for a in sc["agents0"]:
@@ -423,7 +436,7 @@ class FileWorld:
 
 
 def run_file_arm(sc, ctx):
-    m = Model(seed=20260927)
+    m = make_model(sc, ctx)
     w = FileWorld(ctx)
     real = bool(sc.get("real_file"))
     cols = []
